@@ -362,14 +362,34 @@ class EG:
             # arithmetic on small singleton operands only
             a, av = self.small(depth - 1)
             b, bv = self.small(depth - 1)
-            op = self.pick(['+', '-', '*'])
-            self.feats.add('arith')
+            op = self.pick(['+', '-', '*', '//', '%', '/'])
+            self.feats.add('arith' if op in '+-*' else 'arith-div')
+            rt = lub([_base(self.ty(a)), _base(self.ty(b))])
+            if op == '/':
+                # true division: exact (decimal) for bigint / decimal operands, floating otherwise;
+                # the documentation gives no per-type table, so only the values are judged.
+                # Divisor 2: every quotient below is exact in float32 as well.
+                b, bv = self.reg('2', 'int64', [2]) if rt not in ('bigint', 'decimal') else self.reg('2n', 'bigint', [2])
+                try:
+                    if rt in ('bigint', 'decimal'):
+                        vals = [D(str(x)) / D(2) for x in av]
+                    elif rt in (None, '?'):
+                        vals = None
+                    else:
+                        vals = [float(x) / 2.0 for x in av]
+                except TypeError:
+                    vals = None
+                self.tmap[f'({a} / {b})'] = '?'
+                return f'({a} / {b})', vals
             try:
-                vals = [{'+': x + y, '-': x - y, '*': x * y}[op] for x in av for y in bv]
+                import operator
+                f = {'+': operator.add, '-': operator.sub, '*': operator.mul,
+                     '//': operator.floordiv, '%': operator.mod}[op]
+                vals = [f(x, y) for x in av for y in bv]
             except TypeError:
                 vals = None     # decimal with float: the compiler must reject
             # operators are defined on the base types: a subtype operand is generalised
-            return self.reg(f'({a} {op} {b})', lub([_base(self.ty(a)), _base(self.ty(b))]), vals)
+            return self.reg(f'({a} {op} {b})', rt, vals)
         if c == 3:
             parts = [self.expr(depth - 1, allow_extreme) for _ in range(self.i(2, 3))]
             self.feats.add('set-constructor')
@@ -439,6 +459,14 @@ class EG:
                 return f'(select {a[0]} limit {lim})', None
             # LIMIT without ORDER BY: any subset of that size; membership is judged on all candidates
             return f'(select {a[0]} limit {lim})', ('subset', list(av), lim)
+        if self.i(0, 2) == 0:
+            # sign / absolute value keep the (base) type of a small operand
+            a, av = self.small(depth - 1)
+            fn = self.pick(['-', 'abs'])
+            self.feats.add('unary')
+            if fn == '-':
+                return self.reg(f'(-{a})', _base(self.ty(a)), [-x for x in av])
+            return self.reg(f'math::abs(-{a})', _base(self.ty(a)), [abs(-x) for x in av])
         a = self.single(depth - 1, allow_extreme)
         self.feats.add('tuple-element')
         return self.reg(f'({a[0]}, 1).0', self.ty(a[0]), a[1])
